@@ -35,15 +35,25 @@ Lemma assign_array_genb : forall b q fixed cap sl e x,
   assign_array (TGw b) PW q fixed cap sl e x = assignGb b q fixed cap e (strconv sl x).
 Proof. intros. destruct fixed; reflexivity. Qed.
 
-Lemma int_src_ok_b : forall b e y, int_src_ok (TGw b) e y =
-  negb b || match np_flat y with Ok sl => forallb (int_leaf_ok e) (snd sl) | Raise _ => true end.
+(* the range check of the source, with t_precheck_nd_only left as scanned: an ndarray is checked element by element; a list
+   (anything else) leaf by leaf, unless t_precheck_nd_only holds and it contains a Python float (NumPy then infers float64 for
+   the whole list, and the check leaves it to the cast, which raises OverflowError for a Python number out of range) *)
+Definition src_checked (e : etype) (y : pyval) : bool :=
+  match y with
+  | PArr _ l => forallb (int_leaf_ok e) l
+  | _ => match np_flat y with
+         | Ok sl => (t_precheck_nd_only TG && existsb is_pyfloat (snd sl)) || forallb (int_leaf_ok e) (snd sl)
+         | Raise _ => true
+         end
+  end.
+
+Lemma int_src_ok_b : forall b e y, int_src_ok (TGw b) e y = negb b || src_checked e y.
 Proof. reflexivity. Qed.
 
-Lemma slowGb_checked : forall q fixed cap e y v, slowGb true q fixed cap e y = Ok v ->
-  forall sl, np_flat y = Ok sl -> forallb (int_leaf_ok e) (snd sl) = true.
+Lemma slowGb_checked : forall q fixed cap e y v, slowGb true q fixed cap e y = Ok v -> src_checked e y = true.
 Proof.
-  intros q fixed cap e y v H sl E. unfold slowGb in H. rewrite int_src_ok_b, E in H. cbn [negb orb] in H.
-  destruct (forallb (int_leaf_ok e) (snd sl)); [reflexivity|discriminate].
+  intros q fixed cap e y v H. unfold slowGb in H. rewrite int_src_ok_b in H. cbn [negb orb] in H.
+  destruct (src_checked e y); [reflexivity|discriminate].
 Qed.
 
 (* ================================================================ without the pre-check: the wrap *)
@@ -97,11 +107,24 @@ Qed.
    (and its float leaves with floor and ceiling inside it) before the cast *)
 Theorem array_src_checked_list : forall q fixed cap sl e l v,
   assign_array (set_precheck true TG) PW q fixed cap sl e (PList l) = Ok v ->
-  forall shl, np_flat (PList l) = Ok shl -> forallb (int_leaf_ok e) (snd shl) = true.
+  forall shl, np_flat (PList l) = Ok shl ->
+  (t_precheck_nd_only TG && existsb is_pyfloat (snd shl)) || forallb (int_leaf_ok e) (snd shl) = true.
 Proof.
   intros q fixed cap sl e l v H shl E. rewrite assign_array_genb in H.
   replace (strconv sl (PList l)) with (PList l) in H by (destruct sl; reflexivity).
-  cbn [assignGb] in H. eapply slowGb_checked; eauto.
+  cbn [assignGb] in H. apply slowGb_checked in H. unfold src_checked in H. rewrite E in H. exact H.
+Qed.
+
+(* a list of Python ints only (no float in it) is always checked leaf by leaf *)
+Corollary array_src_checked_intlist : forall q fixed cap sl e zs v,
+  assign_array (set_precheck true TG) PW q fixed cap sl e (PList (map PInt zs)) = Ok v ->
+  forallb (int_leaf_ok e) (map PInt zs) = true.
+Proof.
+  intros q fixed cap sl e zs v H. destruct (np_flat_ints zs) as [sh E].
+  pose proof (array_src_checked_list _ _ _ _ _ _ _ H _ E) as C. cbn [snd] in C.
+  assert (existsb is_pyfloat (map PInt zs) = false) as N.
+  { clear. induction zs as [|z r IH]; [reflexivity|]. cbn [map existsb is_pyfloat orb]. exact IH. }
+  rewrite N, andb_false_r in C. exact C.
 Qed.
 
 Theorem array_src_checked_ndarray : forall q fixed cap k dt' l v, (exists w, k = KU w \/ k = KS w) ->
@@ -111,7 +134,7 @@ Theorem array_src_checked_ndarray : forall q fixed cap k dt' l v, (exists w, k =
 Proof.
   intros q fixed cap k dt' l v Hk Hd H. rewrite assign_array_genb in H. cbn [strconv assignGb] in H.
   rewrite Hd in H. cbn [andb] in H.
-  pose proof (slowGb_checked _ _ _ _ _ _ H _ eq_refl) as F. cbn [snd] in F. split; [exact F|].
+  pose proof (slowGb_checked _ _ _ _ _ _ H) as F. cbn [src_checked] in F. split; [exact F|].
   intros z Hz. rewrite forallb_forall in F. specialize (F _ Hz).
   destruct Hk as [w [->| ->]]; exact F.
 Qed.
